@@ -105,9 +105,13 @@ func childMain() {
 		}
 	}
 	debug.SetMaxStack(256 << 20) // runaway recursion dies quickly with "stack overflow"
-	go func() {                  // heap watchdog
+	interval := 300 * time.Microsecond
+	if v, err := strconv.Atoi(os.Getenv("PARSERS_SAMPLE_US")); err == nil && v > 0 {
+		interval = time.Duration(v) * time.Microsecond
+	}
+	go func() { // heap watchdog
 		for {
-			time.Sleep(300 * time.Microsecond)
+			time.Sleep(interval)
 			if sampling.Load() {
 				notePeak()
 			}
